@@ -50,11 +50,18 @@ def build_partition(model, pcls, K, d, I, prefix=""):
     return part, dom, lo, hi
 
 
-def new_parent(I, d, tag, depth, node_cls="P_node"):
-    lo = [A.atom("lo%s%d" % (tag, k), real=True) for k in range(d)]
-    hi = [A.atom("hi%s%d" % (tag, k), real=True) for k in range(d)]
+def new_parent(I, d, tag, depth, node_cls="P_node", aliased=False):
+    if aliased:
+        # the cube idiom [[lo, hi]] * d: one list object shared by every dimension
+        l0, h0 = A.atom("lo%s0" % tag, real=True), A.atom("hi%s0" % tag, real=True)
+        lo, hi = [l0] * d, [h0] * d
+        shared = A.AList([l0, h0])
+        dom = A.AList([shared] * d)
+    else:
+        lo = [A.atom("lo%s%d" % (tag, k), real=True) for k in range(d)]
+        hi = [A.atom("hi%s%d" % (tag, k), real=True) for k in range(d)]
+        dom = A.AList([A.AList([lo[k], hi[k]]) for k in range(d)])
     i = A.atom("i%s" % tag, integer=True, positive=True)
-    dom = A.AList([A.AList([lo[k], hi[k]]) for k in range(d)])
     I.input_ids |= {id(dom)} | {id(x) for x in dom}
     for k in range(d):
         I.facts.append((lo[k].sym, hi[k].sym))
@@ -68,7 +75,7 @@ class Step:
     pass
 
 
-def run_steps(model, pcls, K, d, newlayer, oracle, two_step):
+def run_steps(model, pcls, K, d, newlayer, oracle, two_step, aliased=False):
     """__init__, then make_children(parent, newlayer) [, then make_children(cousin, False)]."""
     I = A.Interp(model, oracle)
     part, dom0, _, _ = build_partition(model, pcls, K, d, I, prefix="root_")
@@ -85,7 +92,7 @@ def run_steps(model, pcls, K, d, newlayer, oracle, two_step):
     if fn is None:
         raise AnalysisError("%s.make_children not found" % pcls)
     steps = []
-    parent, lo, hi, idx = new_parent(I, d, "", h)
+    parent, lo, hi, idx = new_parent(I, d, "", h, aliased=aliased)
     st = Step()
     st.parent, st.lo, st.hi, st.i, st.h, st.newlayer, st.D0 = parent, lo, hi, idx, h, newlayer, D
     st.crash = None
@@ -133,11 +140,12 @@ def _num(v):
     return isinstance(v, A.Num) or (isinstance(v, (int, float)) and not isinstance(v, bool))
 
 
-def check_step(model, pcls, K, d, st, I, second, out):
+def check_step(model, pcls, K, d, st, I, second, out, aliased=False):
     """Append obligation records for one interpreted make_children call."""
     takesK, equal, ar = CLASSES[pcls]
     arity = ar(K, d)
-    cfg = "%s K=%s d=%d newlayer=%s%s" % (pcls, K, d, st.newlayer, " (second expansion, cousin cell)" if second else "")
+    cfg = "%s K=%s d=%d newlayer=%s%s%s" % (pcls, K, d, st.newlayer, " (second expansion, cousin cell)" if second else "",
+                                          " (cube given as [[lo, hi]] * d: one shared list)" if aliased else "")
     tagp = "2" if second else ""
 
     def ob(rule, ok, construct, detail):
@@ -399,16 +407,17 @@ def _one_config(args):
     samples = []
     paths = 0
     first = True
-    for newlayer in (True, False):
+    variants = [(True, False), (False, False)] + ([(False, True)] if d >= 2 else [])
+    for newlayer, aliased in variants:
         # the second (cousin) expansion is explored after a new-layer expansion only
         ts = two_step and newlayer
-        for oracle, res in A.explore(lambda o: run_steps(model, pcls, K, d, newlayer, o, ts)):
+        for oracle, res in A.explore(lambda o: run_steps(model, pcls, K, d, newlayer, o, ts, aliased)):
             paths += 1
             if first:
                 check_init(model, pcls, K, d, res, out)
                 first = False
             for n, st in enumerate(res.steps):
-                check_step(model, pcls, K, d, st, res.I, n == 1, out)
+                check_step(model, pcls, K, d, st, res.I, n == 1, out, aliased)
             if len(samples) < 1 and res.steps and res.steps[0].crash is None:
                 ch = res.steps[0].parent.f.get("children") or []
                 try:
